@@ -275,14 +275,28 @@ _MUTATORS = {'append', 'extend', 'add', 'update', 'pop', 'remove', 'insert', 'so
              'appendleft', 'popleft', 'seek', 'write', 'readline', 'read'}
 
 
-def _root(e):
-    while isinstance(e, (ast.Attribute, ast.Subscript)):
-        e = e.value
-    return e.id if isinstance(e, ast.Name) else None
+def _path(e) -> Optional[str]:
+    """dotted access path of a name / attribute chain; a subscript or call ends the path at its base (`x.a[0].b` -> 'x.a')"""
+    parts = []
+    while True:
+        if isinstance(e, ast.Attribute):
+            parts.append(e.attr)
+            e = e.value
+        elif isinstance(e, (ast.Subscript, ast.Call)):
+            parts = []
+            e = e.value if isinstance(e, ast.Subscript) else e.func
+            if isinstance(e, ast.Attribute) and not isinstance(e, ast.Subscript):
+                # the call / item base: keep the path of the object the method or item belongs to
+                pass
+        elif isinstance(e, ast.Name):
+            return '.'.join([e.id] + parts[::-1])
+        else:
+            return None
 
 
 def _stores_in(stmts) -> Set[str]:
-    """names whose VALUE may change while stmts run: rebinding, attribute / item stores and mutator-method calls rooted at the name"""
+    """access paths whose VALUE may change while stmts run: rebinding of a name ('x'), attribute / item stores ('x.a' for
+    `x.a = ..`, `x.a[k] = ..`), augmented assignments and mutator-method calls on the object at a path ('x.a' for `x.a.append(..)`)"""
     out = set()
     for s in stmts:
         cb = _comp_bound(s)
@@ -290,17 +304,45 @@ def _stores_in(stmts) -> Set[str]:
             if isinstance(n, ast.Name) and isinstance(n.ctx, (ast.Store, ast.Del)) and id(n) not in cb:
                 out.add(n.id)
             elif isinstance(n, (ast.Attribute, ast.Subscript)) and isinstance(n.ctx, (ast.Store, ast.Del)):
-                r = _root(n)
+                r = _path(n)
                 if r:
                     out.add(r)
             elif isinstance(n, ast.Call) and isinstance(n.func, ast.Attribute) and n.func.attr in _MUTATORS:
-                r = _root(n.func.value)
+                r = _path(n.func.value)
                 if r:
                     out.add(r)
             elif isinstance(n, ast.AugAssign):
-                r = _root(n.target)
+                r = _path(n.target)
                 if r:
                     out.add(r)
+    return out
+
+
+def _conflict(reads: Set[str], writes: Set[str]) -> bool:
+    """some read path overlaps a written one (equal, or one is a dotted prefix of the other)"""
+    for r in reads:
+        for w in writes:
+            if r == w or r.startswith(w + '.') or w.startswith(r + '.'):
+                return True
+    return False
+
+
+def _read_paths(v) -> Set[str]:
+    """maximal access paths read by expression v (comprehension variables excluded)"""
+    bound = set()
+    for n in ast.walk(v):
+        if isinstance(n, ast.comprehension):
+            bound |= {t.id for t in ast.walk(n.target) if isinstance(t, ast.Name)}
+    out = set()
+    inner = set()
+    for n in ast.walk(v):
+        if isinstance(n, ast.Attribute):
+            inner.add(id(n.value))
+    for n in ast.walk(v):
+        if isinstance(n, (ast.Attribute, ast.Name)) and id(n) not in inner:
+            p_ = _path(n)
+            if p_ and p_.split('.')[0] not in bound:
+                out.add(p_)
     return out
 
 
@@ -331,8 +373,7 @@ def expand_names(fn_node, stmt, expr, depth=3, chains=None, allow_calls=(), keep
                 v = d.value
                 if isinstance(v, (ast.Subscript, ast.Attribute, ast.Name, ast.Call, ast.BinOp, ast.Compare, ast.BoolOp, ast.IfExp, ast.Constant, ast.UnaryOp, ast.JoinedStr)) \
                         and _expandable(v, allow_calls):
-                    reads = _free_reads(v)
-                    if (reads | {n.id}) & _stores_in(between):
+                    if _conflict(_read_paths(v) | {n.id}, _stores_in(between)):
                         return n          # an operand, or the object bound to the name itself, may have changed in between
                     return expand_names(fn_node, d, _copy.deepcopy(v), depth - 1, chains, allow_calls, keep)
             return n
@@ -667,3 +708,26 @@ def emit_condition(fn_node, stmts, is_emit: Callable[[ast.stmt], bool], chains=N
                 return None
         return emit, fall
     return run(stmts)
+
+
+def with_new_helpers(repo, f):
+    """[f] + the NEW helper functions (not in the reference tree, and which could not be inlined) that f calls, transitively:
+    a rule that looks for a construct 'in f' also looks there, so that extracting part of f into a helper does not hide it"""
+    new = set((getattr(repo, 'normal_info', None) or {}).get('new_helpers', []))
+    out, seen, work = [f], {f.qual}, [f]
+    by_name = {}
+    for q in new:
+        g = repo.functions.get(q)
+        if g is not None:
+            by_name.setdefault(g.node.name, []).append(g)
+    while work:
+        cur = work.pop()
+        for n in ast.walk(cur.node):
+            if isinstance(n, ast.Call):
+                nm = n.func.attr if isinstance(n.func, ast.Attribute) else (n.func.id if isinstance(n.func, ast.Name) else None)
+                for g in by_name.get(nm, []):
+                    if g.qual not in seen:
+                        seen.add(g.qual)
+                        out.append(g)
+                        work.append(g)
+    return out
